@@ -89,6 +89,27 @@ func genRespSplit(seed uint64, tier, variant string) any {
 		}
 		p.Tasks = append(p.Tasks, calls)
 	}
+	if r.IntN(10) == 0 {
+		// one very wide aggregate or very large string: decoders that size buffers from declared lengths treat these
+		// differently from small ones
+		p.X["bytewise"] = false
+		n := pick(r, 20000, 26214, 26215, 30000, 70000)
+		shape := pick(r, "[r%di]", "<r%ds>", "{r%dsi}", "[r%d[ii]]", "A[r%di]")
+		if strings.HasPrefix(shape, "{") {
+			n = pick(r, 13107, 13108, 20000)
+		}
+		call := CallSpec{Kind: "do", Cmds: []CmdSpec{{Argv: []string{"VTAG", "wide.k0", fmt.Sprintf(shape, n), "0"}}}}
+		if r.IntN(3) == 0 {
+			sh := pick(r, "b", "v", "B", "S")
+			if p.Opt.RESP2 {
+				sh = "b"
+			}
+			call = CallSpec{Kind: pick(r, "do", "stream"), Cmds: []CmdSpec{{Argv: []string{"VTAG", "wide.k0", sh, strconv.Itoa(pick(r, 1<<20-20, 1<<20+50, 2500000))}}}}
+		}
+		ti := r.IntN(len(p.Tasks))
+		at := r.IntN(len(p.Tasks[ti]) + 1)
+		p.Tasks[ti] = append(p.Tasks[ti][:at], append([]CallSpec{call}, p.Tasks[ti][at:]...)...)
+	}
 	return p
 }
 
